@@ -742,6 +742,27 @@ def rule_verbatim(ctx):
     ok = len(rng) == 3 and rng[1][1] == rng[2][0] and rng[0][1] == rng[2][0]
     ctx.check(ok, rule, "contiguous", "format_verbatim's copied slices are %s: boundary and payload must be adjacent ranges of the source "
               "(.. inner_start)(inner_start ..)" % [g[:100] for g in gets], loc, detail={"slices": len(gets)})
+    # the comments of a verbatim payload are copied with it: the capture must not collect them as well (they would be emitted twice)
+    cap = next((q for q in facts.bodies() if q.endswith("::capture_source_information")), None)
+    newfn = COMMENT + "CommentCapture::new"
+    if cap is None or newfn not in facts.bodies():
+        ctx.anchor_lost(rule, "capture_source_information / CommentCapture::new not found")
+    else:
+        hc = facts.hir(cap)
+        reads_directive = any(H.kind(x) == "Field" and x.get("name") == "verbatim" for x in H.walk(hc["body"])) and \
+            any(H.kind(c) in ("Call", "MethodCall") and (H.callee(c) or "").endswith("::specialize") for c in H.walk(hc["body"]))
+        calls = [c for c in H.walk(hc["body"]) if H.kind(c) in ("Call", "MethodCall") and (H.callee(c) or "") == newfn]
+        passes = bool(calls) and all(len(H.call_args(c)) >= 3 for c in calls)
+        hn = facts.hir(newfn)
+        en = A.ArmEnv(); en.strip = True; en.bind_params(hn)
+        filters = [c for c in H.walk(hn["body"]) if H.kind(c) == "MethodCall" and c["name"] in ("filter", "retain", "filter_map")
+                   and any(H.kind(y) == "Path" and (y.get("res") or {}).get("local") is not None and (y.get("res") or {}).get("name") == "copied"
+                           for y in H.walk(c["args"][0]))] if hn else []
+        ctx.check(reads_directive and passes and bool(filters), rule, "payload-comments-not-captured", "the comment capture does not skip the comments "
+                  "inside a verbatim payload (directive read: %s, ranges passed: %s, filtered: %s): a comment there that no entity of the "
+                  "payload follows (`@[format(verbatim)] (g /- c -/ )`) is copied with the payload AND emitted at its outside anchor, once "
+                  "more on every run" % (reads_directive, passes, bool(filters)), facts.bodies()[cap]["loc"],
+                  detail={"skipped": "comments inside the payload range of a verbatim directive"})
     # scoped() keeps the source
     fn = FORMATTER + "scoped"
     h = ctx.need_hir(rule, fn)
